@@ -74,6 +74,12 @@ class Ctx:
                 a_, b_ = (substitute(x, env) for x in st.value.args)
                 env[st.targets[0].elts[0].id] = ast.BinOp(left=a_, op=ast.FloorDiv(), right=b_)
                 env[st.targets[0].elts[1].id] = ast.BinOp(left=a_, op=ast.Mod(), right=b_)
+            elif isinstance(st, ast.Assign) and len(st.targets) == 1 and isinstance(st.targets[0], (ast.Tuple, ast.List)) \
+                    and all(isinstance(t, ast.Name) for t in st.targets[0].elts) and isinstance(st.value, ast.Call) and U(st.value.func) in ('struct.unpack', 'unpack'):
+                # a, b = struct.unpack(F, x)   ==   a = struct.unpack(F, x)[0] ; b = struct.unpack(F, x)[1]
+                call_ = substitute(st.value, env)
+                for i_, t_ in enumerate(st.targets[0].elts):
+                    env[t_.id] = ast.Subscript(value=call_, slice=ast.Constant(value=i_), ctx=ast.Load())
             else:
                 return None
         for n in ast.walk(body[-1].value):
